@@ -63,7 +63,7 @@ Lemma st_Rem_Sub s id now : Sub s (fst (st_Rem s id now)).
 Proof. apply (st_Rem_R Sub Sub_refl Sub_trans Sub_amb Sub_head). Qed.
 Lemma st_find_rules_Sub s ev now : Sub s (fst (st_find_rules s ev now)).
 Proof. apply (st_find_rules_R Sub Sub_refl Sub_trans Sub_amb Sub_head). Qed.
-Lemma expire_Sub s id fact now : Sub s (fst (expire st_rem_rec s id fact now)).
+Lemma expire_Sub s id fact now : Sub s (fst (fst (expire st_rem_rec s id fact now))).
 Proof. apply (expire_R Sub Sub_refl Sub_trans Sub_amb st_rem_rec st_rem_rec_Sub). Qed.
 
 Lemma Sub_no_expired s s' now : Sub s s' -> no_expired s now -> no_expired s' now.
